@@ -42,10 +42,12 @@ case "${1:-}" in
   tmp="$(mktemp -d "$HERE/work/micro.XXXXXX")"
   export -f one rate_of; export RATE ROUNDS MODE
   for ((s=0; s<n; s++)); do for ((k=0; k<nseeds; k++)); do echo "$s $(( (base % 100000) * 64 + s * 131 + k ))"; done; done > "$tmp/pairs"
-  # C15 quick: 16 cold starts (4 callers at once: 8 for MT103, 4 for MT101, one for each other subject) and one mixed run per subject
+  # C15 quick: 16 cold starts (4 callers at once: 8 for MT103, 4 for MT101, one for each other subject) one mixed run per subject, six publish runs
   if [ "$PROP" = C15 ] && [ "$tier" != thorough ] && [ -z "${MTMIRI_SEEDS:-}" ]; then
     { for ((s=0; s<n; s++)); do k_max=1; [ $s -eq 0 ] && k_max=8; [ $s -eq 1 ] && k_max=4; for ((k=0; k<k_max; k++)); do echo "$s $(( (base % 100000) * 64 + s * 131 + k )) c15cold 4"; done; done
-      for ((s=0; s<n; s++)); do echo "$s $(( (base % 100000) * 64 + s * 131 + 97 )) c15 $ROUNDS"; done; } > "$tmp/pairs"
+      for ((s=0; s<n; s++)); do echo "$s $(( (base % 100000) * 64 + s * 131 + 97 )) c15 $ROUNDS"; done
+      # publish mode: four callers publish messages with different kinds of amounts at once, from a cold start
+      for ((k=0; k<6; k++)); do echo "$k $(( (base % 100000) * 64 + 7001 + k )) c15pub 1"; done; } > "$tmp/pairs"
   fi
   # C13: every subject additionally gets cold starts (4 callers' first validations at once): one in quick, as many as mixed runs in thorough
   if [ "$PROP" != C15 ] && [ "$PROP" != C16 ]; then
@@ -53,7 +55,7 @@ case "${1:-}" in
   fi
   # C15 thorough: every subject additionally gets as many cold starts (4 callers at once) as it gets mixed runs
   if [ "$PROP" = C15 ] && [ "$tier" = thorough ]; then
-    awk -v r="$ROUNDS" '{print $1, $2, "c15", r; print $1, $2 + 7919, "c15cold", 4}' "$tmp/pairs" > "$tmp/pairs2" && mv "$tmp/pairs2" "$tmp/pairs"
+    awk -v r="$ROUNDS" '{print $1, $2, "c15", r; print $1, $2 + 7919, "c15cold", 4; if (NR <= 64) print NR, $2 + 104729, "c15pub", 2}' "$tmp/pairs" > "$tmp/pairs2" && mv "$tmp/pairs2" "$tmp/pairs"
   fi
   # 16 interpreters at a time
   xargs -P 16 -L 1 bash -c 'MODE="${2:-$MODE}"; ROUNDS="${3:-$ROUNDS}"; out="$(one "$0" "$1")"; rc=$?; echo "$out" | grep -E "^MICRO-" | sed "s/^/seed=$1 rate=$(rate_of "$0" "$1") mode=$MODE rounds=$ROUNDS /" ; if [ $rc -ne 0 ] && ! echo "$out" | grep -q "^MICRO-VIOLATION"; then if echo "$out" | grep -q "unsupported operation"; then echo "seed=$1 MICRO-UNSUPPORTED subject=$0 $(echo "$out" | grep -m1 "unsupported operation" | cut -c1-160)"; else echo "seed=$1 MICRO-ABORT subject=$0 rc=$rc $(echo "$out" | grep -m1 -E "^error" | cut -c1-200)"; fi; fi' < "$tmp/pairs" > "$tmp/out" 2>&1
